@@ -920,6 +920,100 @@ def gen_bgraph(rng, tier):
             lines.append("bgraph %s %s %d" % (first, gen.hexes(z), reps))
             lines.append("bgraph %s %s %d" % ("b" if first == "k" else "k", gen.hexes(z), reps))
         out.append(("b%d" % k, lines))
+    out += gen_mstraw(rng, tier)
+    return out
+
+
+def _raw_graph(rng):
+    """synthetic basin graphs for `mstraw`.  The Boruvka variant of the library is the one for
+    PLANAR-like graphs (it only contracts nodes of degree <= 16 and relies on such nodes existing at
+    every round, which planarity guarantees), so the families are planar or lattice graphs as basin
+    graphs are - but with hubs far above the low-degree threshold, middle layers that are large
+    themselves (so that several large nodes survive a round), disconnected parts, and weights with
+    many ties: the regime small grids never reach."""
+    fam = rng.choice(["lattice", "lattice_hub", "double_hub", "star_of_stars", "wheel", "fan", "tree"])
+    pairs = set()
+    if fam in ("lattice", "lattice_hub"):
+        r, c = rng.randint(2, 7), rng.randint(2, 7)
+        diag = rng.random() < 0.5          # the 8-neighbour lattice of a queen raster
+        nb = r * c
+        keep = rng.choice([1.0, 0.9, 0.7])
+        for i in range(r):
+            for j in range(c):
+                for di, dj in [(0, 1), (1, 0)] + ([(1, 1), (1, -1)] if diag else []):
+                    a, b = i + di, j + dj
+                    if 0 <= a < r and 0 <= b < c and rng.random() < keep:
+                        pairs.add((i * c + j, a * c + b))
+        if fam == "lattice_hub":
+            # a root-like hub joined to every border node (the virtual root of outer basins)
+            hub = nb
+            nb += 1
+            for i in range(r):
+                for j in range(c):
+                    if i in (0, r - 1) or j in (0, c - 1):
+                        pairs.add((i * c + j, hub))
+    elif fam == "double_hub":
+        # K_{2,m} plus private leaves on some middle nodes: both hubs and the leafy middle nodes are
+        # of degree > 16; after the leaves are contracted the hubs still have m > 16 live neighbours
+        m = rng.randint(17, 20)
+        nb = 2 + m
+        for k in range(m):
+            pairs.add((0, 2 + k))
+            if rng.random() < 0.9:
+                pairs.add((1, 2 + k))
+        leafy = rng.choice([0.5, 1.0, 1.0])
+        for k in range(m):
+            if rng.random() < leafy:
+                for _ in range(rng.randint(15, 17)):
+                    pairs.add((2 + k, nb))
+                    nb += 1
+    elif fam == "star_of_stars":
+        m = rng.randint(17, 21)
+        nb = 1 + m
+        for k in range(m):
+            pairs.add((0, 1 + k))
+            for _ in range(rng.choice([0, 2, 17, 18])):
+                pairs.add((1 + k, nb))
+                nb += 1
+    elif fam == "wheel":
+        nb = rng.randint(19, 40)
+        pairs = {(0, i) for i in range(1, nb)} | {(i, i + 1) for i in range(1, nb - 1)} | {(1, nb - 1)}
+    elif fam == "fan":
+        nb = rng.randint(19, 40)
+        pairs = {(0, i) for i in range(1, nb) if rng.random() < 0.95} | {(i, i + 1) for i in range(1, nb - 1) if rng.random() < 0.8}
+    else:
+        nb = rng.randint(2, 60)
+        for i in range(1, nb):
+            if rng.random() < 0.95:
+                pairs.add((rng.randrange(i) if rng.random() < 0.7 else 0, i))
+    pairs = sorted({(min(a, b), max(a, b)) for a, b in pairs if a != b})
+    rng.shuffle(pairs)
+    # which end of a stored pair comes first is arbitrary in the code (inner basin first): shuffle it
+    pairs = [(a, b) if rng.random() < 0.5 else (b, a) for a, b in pairs]
+    wf = rng.choice(["ints", "ints", "equal", "random", "few"])
+    if wf == "ints":
+        w = [float(rng.randint(0, 9)) for _ in pairs]
+    elif wf == "equal":
+        w = [1.0 for _ in pairs]
+    elif wf == "few":
+        w = [rng.choice([0.0, 0.5, 2.0]) for _ in pairs]
+    else:
+        w = [rng.random() for _ in pairs]
+    return nb, pairs, w, fam
+
+
+def gen_mstraw(rng, tier):
+    out = []
+    for k in range(counts(tier, 60, 800)):
+        graphs = [_raw_graph(rng) for _ in range(rng.randint(1, 3))]
+        nb = max(g_[0] for g_ in graphs)
+        # a flat profile of nb nodes: every node is its own outlet, so the basin graph object sees
+        # nb basins (basins_count() reads the outlets of the flow graph)
+        g = gen.Grid("profile", size=nb, dx=1.0, borders=["c", "c"], cache=True, ov=[])
+        lines = [g.line(), "graph single", "update " + gen.hexes([0.0] * nb)]
+        for (_, pairs, w, fam) in graphs:
+            lines.append("mstraw %d %d %s" % (nb, len(pairs), " ".join("%d %d %s" % (a, b, hx(x)) for (a, b), x in zip(pairs, w))))
+        out.append(("w%d" % k, lines))
     return out
 
 
@@ -944,18 +1038,23 @@ def bg_tags(si):
 
 
 def bg_nontrivial(si):
-    return any(c.cmd == "bgraph" and len(c.O.get("bg_tree", [])) >= 1 for c in si.calls)
+    return any((c.cmd == "bgraph" and len(c.O.get("bg_tree", [])) >= 1) or (c.cmd == "mstraw" and len(c.O.get("raw_b", [])) >= 1) for c in si.calls)
 
 
 register("C15", lean_modules=["FsProofs.Properties.ClosedC15", "FsProofs.Properties.ShapesC15", "FsProofs.Properties.C15UnionFind", "FsProofs.Properties.C15", "FsProofs.Properties.C15Min", "FsProofs.Properties.C15Cert", "FsProofs.Properties.C15Connect", "FsProofs.Properties.C15Bottleneck", "FsProofs.Properties.C01MstOrientComplete"],
          theorems=["Fs.Closed.validPerm_kruskal_msf", "Fs.Closed.grid_C15_passes", "Fs.Closed.grid_C15_kruskal", "Fs.Closed.grid_C15_kruskal_virtual", "Fs.Closed.grid_C15_kruskal_connects", "Fs.Closed.grid_C15_orient", "Fs.Closed.grid_C15_orient_tree", "Fs.Closed.grid_C15_reached", "Fs.Closed.raster_C15_passes", "Fs.Closed.raster_C15_kruskal", "Fs.Closed.raster_C15_orient", "Fs.Closed.mesh_C15_passes", "Fs.Closed.mesh_C15_kruskal", "Fs.Closed.mesh_C15_orient", "Fs.Closed.profile_C15_passes", "Fs.Closed.profile_C15_kruskal", "Fs.Closed.profile_C15_orient", "Fs.Shapes.source_shape_C15", "Fs.C15.kruskalUF_eq", "Fs.C15.find_spec", "Fs.C15.find_compresses", "Fs.C15.merge_spec", "Fs.C15.kruskalUF_min_weight", "Fs.C15.kruskal_exec_bottleneck", "Fs.C15.kruskal_minimax_iff", "Fs.C15Connect.c15_edge_sound", "Fs.C15Connect.c15_edge_unique", "Fs.C15Connect.c15_lowest_pass", "Fs.C15Connect.c15_lowest_pass_exists", "Fs.C15Connect.c15_virtual",
                    "Fs.C01Mst.orient_spec", "Fs.C01Mst.orient_reached_iff", "Fs.C15.certImpl_sound", "Fs.C15.certOk_sound", "Fs.C15.certOk_kruskal", "Fs.C15.kruskal_exec_min_weight", "Fs.C15.kruskal_exec_is_spanning_forest", "Fs.C15.kruskal_min_weight", "Fs.C15.kruskal_minimum_spanning_forest", "Fs.C15.validPerm_sorted", "Fs.C15.exchange",
                    "Fs.C15.kruskal_sim", "Fs.C15.kruskal_spanning", "Fs.C15.kruskal_forest", "Fs.Kruskal.kruskal_agree", "Fs.Kruskal.kruskal_forest"],
-         gen=gen_bgraph, oracles=[oracle.c15], nontrivial=bg_nontrivial, tags=bg_tags,
-         sections={"bg_outlets", "bg_edges", "bg_tree"},
-         model_certs={"bg_cert_impl": ("1", "tree_minimum_weight_certificate", "the Lean certificate checker (certImpl, soundness theorem Fs.C15.certImpl_sound) rejects the tree REPORTED BY THE IMPLEMENTATION as a minimum-weight spanning forest of the root component of the reported edge set"),
+         gen=gen_bgraph, oracles=[oracle.c15, oracle.c15_raw], nontrivial=bg_nontrivial, tags=bg_tags,
+         sections={"bg_outlets", "bg_edges", "bg_tree", "raw_k", "raw_b", "raw_b2"},
+         model_certs={"cert_raw_impl_k": ("1", "tree_minimum_weight_certificate", "the Lean certificate checker certOk (Fs.C15.certOk_sound) rejects the Kruskal tree REPORTED BY THE IMPLEMENTATION for a synthetic basin graph"),
+                      "cert_raw_impl_b": ("1", "tree_minimum_weight_certificate", "the Lean certificate checker certOk (Fs.C15.certOk_sound) rejects the Boruvka tree REPORTED BY THE IMPLEMENTATION for a synthetic basin graph"),
+                      "cert_raw_perm": ("1", "kruskal_sorted_permutation", "the order std::sort gave the edges of a synthetic basin graph is not a weight-sorted permutation (validPerm)"),
+                      "cert_raw_k": ("1", "tree_minimum_weight_certificate", "certOk rejects the model's own union-find Kruskal tree on a synthetic basin graph"),
+                      "cert_raw_b": ("1", "tree_minimum_weight_certificate", "certOk rejects the model's own Boruvka tree on a synthetic basin graph"),
+                      "bg_cert_impl": ("1", "tree_minimum_weight_certificate", "the Lean certificate checker (certImpl, soundness theorem Fs.C15.certImpl_sound) rejects the tree REPORTED BY THE IMPLEMENTATION as a minimum-weight spanning forest of the root component of the reported edge set"),
                       "bg_cert": ("1", "tree_minimum_weight_certificate", "the Lean certificate checker (certOk, soundness theorem Fs.C15.certOk_sound) rejects the raw tree of this method as a minimum-weight spanning forest of the lowest-pass edges")},
-         rule="single-direction graphs on random grids (+ a channel family giving basins of degree > 16), heavy ties, masks, arbitrary base levels; basin graph built with Kruskal and Boruvka, repeated updates on the same basin-graph object; edges, passes, tree compared exactly with the Lean model; oracle: independent adjacency scan + exact Kruskal weight; non-trivial = tree has at least one edge",
+         rule="SYNTHETIC basin graphs (`mstraw`: planar / lattice families with hubs far above the low-degree threshold of Boruvka, leafy middle layers so that several large nodes survive a round, disconnected parts, tied weights - run through compute_tree_kruskal and compute_tree_boruvka of a persistent basin-graph object via the friend class the library declares for its own test, compared bit for bit with kruskalUF / Fs.Mst.boruvka, certified by certOk on the implementation's trees, and judged by an independent Kruskal) + single-direction graphs on random grids (+ a channel family giving basins of degree > 16), heavy ties, masks, arbitrary base levels; basin graph built with Kruskal and Boruvka, repeated updates on the same basin-graph object; edges, passes, tree compared exactly with the Lean model; oracle: independent adjacency scan + exact Kruskal weight; non-trivial = tree has at least one edge",
          trusted_base=FLOW_TB + ["std::sort tie order of Kruskal is recomputed by the harness with the same comparator and handed to the model, which validates it is a weight-sorted permutation",
                                  "m_max_low_degree regenerated from basin_graph.hpp"])
 _lvl("C15", "proof",
